@@ -118,19 +118,19 @@ HARNESSES = [
             'PREBLOCK: thread a first runs until it sleeps, then the threads interleave freely',
        bounds={'threads': 2, 'ops_per_thread': '<=2', 'capacity': 1, 'free_rounds': 'ROUNDS of the scenario (quick 2 / 1, thorough 2)', 'forced_rounds': 2, 'spin_unroll': 1}),
   dict(name='bq_fault_2t', unit='bqmf1_2', harness='h_cq.c', defines={'NT': 2, 'ITEMS_PER_PAGE': 1, 'BOUNDED': 1, 'REALCPP': 2, 'FAULTS': 1},
-       scenarios_quick=R(1, [dict(bsc(2, 0, 0, (BPOP, N), (PUSH, PUSH)), PREBLOCK=1)]),
+       scenarios_quick=R(1, [dict(bsc(2, 0, 0, (BPOP, N), (PUSH, PUSH)), PREBLOCK=1, FAULT_AT=0)]),   # quick: the first push of the producer throws (concrete position); thorough: any position
        scenarios_thorough=R(2, [dict(bsc(2, 0, 0, (BPOP, N), (PUSH, PUSH)), PREBLOCK=1), bsc(2, 0, 0, (BPOP, N), (PUSH, PUSH))]),
        cbmc=CB, timeout=1500, mem_gb=8, thorough_override={'timeout': 5400}, native_cflags=NCF,
        desc='concurrent_bounded_queue with a throwing element constructor (unit WITH exceptions, real concurrent_bounded_queue.cpp): a consumer sleeps in pop() with ticket t, the push that owns '
             'ticket t fails after taking it (invalid entry, no notify), the next push succeeds: its notify must release the sleeper (predicate_leq covers skipped tickets), the pop skips the invalid '
             'entry and returns the next item; nothing lost, history of the successful calls linearizable',
-       bounds={'threads': 2, 'ops_per_thread': '<=2', 'capacity': 2, 'faults': '<=1 constructor exception at a solver-chosen call', 'free_rounds': 'quick 1 / thorough 2', 'forced_rounds': 2, 'spin_unroll': 1}),
+       bounds={'threads': 2, 'ops_per_thread': '<=2', 'capacity': 2, 'faults': 'quick: the first constructor call throws; thorough: <=1 constructor exception at a solver-chosen call', 'free_rounds': 'quick 1 / thorough 2', 'forced_rounds': 2, 'spin_unroll': 1}),
   dict(name='cq_big_3t', unit='cq1_3', harness='h_cq.c', defines={'NT': 3, 'ITEMS_PER_PAGE': 1}, tiers=['thorough'],
        scenarios=R(2, THREE_T), cbmc=CB, timeout=3600, mem_gb=8, native_cflags=NCF,
        desc='concurrent_queue<136-byte struct>, 3 threads x 1 operation: ' + DESC,
        bounds={'threads': 3, 'ops_per_thread': 1, 'free_rounds': 2, 'forced_rounds': 2, 'spin_unroll': 1}),
   dict(name='bq_big_2t', unit='bqm1_2', harness='h_cq.c', defines={'NT': 2, 'ITEMS_PER_PAGE': 1, 'BOUNDED': 1, 'REALCPP': 2},
-       scenarios_quick=R(2, BQ_ONE[:3] + BQ_ONE[4:]), scenarios_thorough=R(3, BQ_ONE[:2]) + R(2, BQ_ONE[2:]) + R(2, BQ_TWO),
+       scenarios_quick=R(1, BQ_ONE[:2]) + R(2, BQ_ONE[2:3] + BQ_ONE[4:]), scenarios_thorough=R(2, BQ_ONE[:2]) + R(3, BQ_ONE[2:]) + R(2, BQ_TWO),
        cbmc=CB, timeout=1500, mem_gb=8, thorough_override={'timeout': 5400}, native_cflags=NCF,
        desc='concurrent_bounded_queue<136-byte struct>, capacity 1-2 (header code real; the r1:: monitor entry points are contract stubs with sleeper bookkeeping): '
             'push/pop (blocking), try_push, try_pop; linearizability against a BOUNDED FIFO queue (a push takes effect only when size < capacity, try_push fails only when full), '
@@ -153,9 +153,9 @@ MANIFEST = dict(
              'lane/ticket invariants and page accounting at quiescence, no use-after-free of pages (cbmc pointer checks), no lost hand-off or lost wake-up '
              '(two-round blocked-state oracle), capacity never exceeded, try_push/try_pop failures justified.',
   level_note='Element types: 136-byte (1 item/page), 72-byte (2/page), 4-byte (32/page). Bounds per harness in evidence (threads, ops, rounds, pre-state). '
-             'concurrent_bounded_queue: header code and src/tbb/concurrent_bounded_queue.cpp (wait/notify wrappers, predicate_leq, representation allocation) are real; the boundary is '
-             'concurrent_monitor_base::wait / notify(pred) / abort_all as contract stubs (atomic test-and-sleep; a selected sleeper returns without re-checking, as the real wait does); the real '
-             'concurrent_monitor is checked in C02 (the abort harness stubs one level higher, at the r1:: entry points). Three harnesses are compiled WITH exceptions (lowered by the translator): '
+             'concurrent_bounded_queue: header code, src/tbb/concurrent_bounded_queue.cpp (wait/notify/abort wrappers, the notify predicate, representation allocation) AND '
+             'concurrent_monitor_base / sleep_node (wait set, epoch, predicate evaluation on node contexts, abort flags) are real; contract stubs only for binary_semaphore::P/V and the '
+             'bounded spin of the monitor mutex (no type of the .cpp is named, so renames there do not break the build). Three harnesses are compiled WITH exceptions (lowered by the translator): '
              'an element copy constructor that throws at a solver-chosen call after the ticket was taken (unbounded queue: invalid entry skipped, nothing else lost; bounded queue: a consumer asleep on '
              'exactly that ticket is still released by the next push), and abort() of a sleeping push/pop. '
              'Page-allocation failure (bad_last_alloc) is outside. '
@@ -165,22 +165,21 @@ OUTSIDE = [
   'more than 3 threads, more than 2 operations per thread (4 concurrent operations in the quick tier)',
   'fault sequences beyond one constructor exception per run; page allocation that throws (invalidate_page / bad_last_alloc path); bounded-queue faults other than the sleeping-consumer scenario (e.g. a sleeping producer whose key is an invalid slot)',
   'abort() racing with more than one sleeper or with a notify for the same sleeper beyond the 2-thread scenarios listed; capacity changes while threads run; negative-size states with more than one blocked pop',
-  'the real concurrent_monitor under the bounded queue (stubbed at concurrent_monitor_base::wait/notify/abort_all; covered separately by C02) and the real cache_aligned_allocator',
+  'under the bounded queue: the futex protocol of binary_semaphore and the sleeping slow path of concurrent_monitor_mutex (stubbed; covered by C02), the real cache_aligned_allocator',
   'two operations meeting in the same lane other than push(k+8)/pop(k): e.g. pop(k)/pop(k+8) needs >8 pops (mutation M2 below is invisible inside the bound)',
   'emplace / move push, iterators, copy/move/assign/clear/swap (not concurrent operations)',
   'weak memory: sequential consistency only',
 ]
 STUBS = [
   'r1::cache_aligned_allocate/deallocate: malloc/free of the requested size (queue representation handed out as a static typed object, pages as typed heap objects)',
-  'concurrent_monitor_base<uintptr_t>::wait(pred, node) [bq_big_2t, bq_fault_2t; r1::wait_bounded_queue_monitor in bq_abort_2t]: returns at once iff the wait predicate is false, else the caller sleeps under the node context; test-and-sleep atomic; a sleeper selected by a notify returns WITHOUT re-evaluating the predicate (as the real wait)',
-  'concurrent_monitor_base::notify(predicate_leq) [r1::notify_bounded_queue_monitor in bq_abort_2t]: wakes every sleeper of that monitor for which the REAL predicate_leq::operator() accepts its context',
-  'cache_aligned_allocate for the bounded representation: one static typed object {representation, 2 monitors}; the monitors are constructed by the real allocate_bounded_queue_rep and otherwise untouched',
-  'r1::abort_bounded_queue_monitors: every current sleeper is woken and its wait throws user_abort without re-evaluating the predicate (concurrent_monitor::abort_all)',
+  'binary_semaphore::P(): returns (closing the semaphore) if a V is pending, else the caller sleeps until one is; V(): opens the semaphore (bounded-queue units)',
+  'd0::timed_spin_wait_until inside concurrent_monitor_mutex::lock: spin until the monitor mutex is seen free (its futex slow path is not reached)',
+  'cache_aligned_allocate for the bounded representation: one static typed object {representation, 2 monitors} as requested by the real allocate_bounded_queue_rep; the harness then moves the idle monitors into an object of their own (vp_q_relocate_monitors: cbmc object granularity, no queue logic depends on their address)',
   'r1::throw_exception: throws (sets the pending-exception flag of the lowered unwinding) in the abort harness, must not be reached elsewhere',
   'element copy constructor fault hook vp_ctor_fault (fault harness only): throws at most FAULTS times at solver-chosen calls while the threads run',
   'sched_yield / pause: scheduling hints',
 ]
 ASSUMPTIONS = [
   'concurrent_queue::my_queue_representation / my_monitors do not change while the threads run (asserted at the end; loads of them are not scheduling points)',
-  'the monitor used by concurrent_bounded_queue has no lost wake-up between predicate test and sleep (its contract; checked on the real code by C02)',
+  'binary_semaphore is a correct binary semaphore and the monitor mutex a correct lock (their futex protocols are checked on the real code by C02)',
 ]
